@@ -130,14 +130,28 @@ class PEval(object):
     def _inline_call(self, name, n, nid, args, env, events):
         """-> list of (ret value, callee events, {caller path: value}, {caller local id: value}) per callee path"""
         fn = self.m.funcs[name]
+        memo = getattr(self, '_inl_memo', None)
+        if memo is None:
+            memo = self._inl_memo = {}
+        mkey = (name, id(n), frozenset((k, v) for k, v in env.items() if k[0] != 'c'), len(events),
+                hash(tuple((e[0], e[1]) for e in events if e[0] == 'call')))
+        if mkey in memo:
+            return memo[mkey]
         sub = self._subs.get(name)
         if sub is None:
             sub = PEval(self.m, name)
             sub.depth = self.depth + 1
             sub.inline_names = self.inline_names
             self._subs[name] = sub
+        sub._steps = getattr(self, '_steps', None)
+        sub._inl_memo = memo
         sub.record_sets = False
         pm, outv = self._path_map(fn, n, nid)
+        if self.store_filter is not None:
+            pf = self.store_filter
+            sub.store_filter = lambda k, fld, pm=pm, pf=pf: pf(self._xlate(k, pm, False) or k, fld)
+        else:
+            sub.store_filter = None
         inputs = {}
         for i, prm in enumerate(fn.params):
             if i < len(args) and args[i] is not None:
@@ -191,6 +205,14 @@ class PEval(object):
                 if c is not None:
                     back[c] = v
             outs.append((t.ret, evs, back, backv, set(outv.values())))
+        # outcomes that the caller cannot tell apart are one outcome
+        uniq = {}
+        for o in outs:
+            k = (o[0], tuple((e[0], e[1], str(e[2])) for e in o[1] if e[0] in ('call', 'store')),
+                 frozenset(o[2].items()), frozenset(o[3].items()))
+            uniq.setdefault(k, o)
+        outs = list(uniq.values())
+        memo[mkey] = outs
         return outs
 
     def ev(self, x, env, nid):
@@ -605,7 +627,10 @@ class PEval(object):
                 env0[('p', k)] = v
         g = self.g
         traces = []
-        steps = [0]
+        steps = self._steps if getattr(self, '_steps', None) is not None else [0]
+        if self.depth == 0:
+            steps = self._steps = [0]
+            self._inl_memo = {}
         stack = [(g.entry.id, env0, list(events0 or []), {}, False)]
         seen = set()
         while stack:
